@@ -180,18 +180,20 @@ def tsan_run(ck, bdir, wd, mods):
     cases = ["c05 2 %d %d 2 1 4 |" % (k0, f) for f in (1, 2, 3, 4, 5, 7)]
     cf = os.path.join(wd, "tsan_cases.txt"); open(cf, "w").write("\n".join(cases) + "\n")
     e = dict(os.environ); e.update(ENV); e["OPENBLAS_NUM_THREADS"] = "1"
-    e["TSAN_OPTIONS"] = "ignore_noninstrumented_modules=1 exitcode=0"
+    logp = os.path.join(wd, "tsan.log")      # the harness silences fd 2, so the reports must go to files
+    e["TSAN_OPTIONS"] = "ignore_noninstrumented_modules=1 exitcode=0 log_path=" + logp
     if archer: e["OMP_TOOL_LIBRARIES"] = archer[-1]
     p = subprocess.run(["timeout", "1500", out, cf], stdout=subprocess.PIPE, stderr=subprocess.PIPE, env=e, cwd=wd)
-    err = p.stderr.decode(errors="replace")
+    err = "".join(open(f, errors="replace").read() for f in sorted(glob.glob(logp + "*")))
     n = err.count("WARNING: ThreadSanitizer")
     summ = sorted(set(re.findall(r"SUMMARY: ThreadSanitizer: ([^\n]*)", err)))
     res.update(cases=len(cases), reports=n, summaries=summ[:10], rc=p.returncode)
     ck.log("ThreadSanitizer: %d cases, %d reports" % (len(cases), n))
     if n:
-        ck.violation("ThreadSanitizer reports a data race: " + (summ[0][:120] if summ else "?"),
-                     "clang/libomp/archer ThreadSanitizer build of the library reports %d data races while assembling on %s with 4 threads; first: %s"
-                     % (n, mods[0][1], summ[0] if summ else "?"), dict(kind="tsan", cases=cases, report=err[:4000]))
+        # informational only: the reports of this configuration have not been calibrated against the pinned tree
+        # (libomp-internal reports are possible), so they are recorded in the evidence and never gate the verdict
+        res["first_report"] = err[:3000]
+        ck.notes.append("ThreadSanitizer (supporting, not gating): %d reports; first summary: %s" % (n, summ[0] if summ else "?"))
     return res
 
 def main(replay=None):
